@@ -139,6 +139,10 @@ func (m *Machine) verifyFunction(key string, fc *FuncContract, opts verifyOpts) 
 	for _, fv := range fn.FreeVars {
 		v := m.freshValue(fv.Name(), fv.Type())
 		fr.regs[fv] = v
+		if m.cur.freeVars == nil {
+			m.cur.freeVars = map[string]bool{}
+		}
+		m.cur.freeVars[fv.Name()] = true
 		m.cur.params[fv.Name()] = v
 		m.cur.ptypes[fv.Name()] = fv.Type()
 	}
@@ -213,9 +217,7 @@ func (m *Machine) atReturn(c *Config, fn *ssa.Function, fc *FuncContract, result
 	// (ghost-out style: e.g. the address and kind computed by checkEncodeRefMap)
 	rb := c.top.block
 	for name, vals := range m.debugNames(fn) {
-		if _, taken := env.vars[name]; taken {
-			continue
-		}
+		_, taken := env.vars[name]
 		var best ssa.Value
 		for _, v := range vals {
 			ins, ok := v.(ssa.Instruction)
@@ -232,9 +234,16 @@ func (m *Machine) atReturn(c *Config, fn *ssa.Function, fc *FuncContract, result
 		}
 		if best != nil {
 			if val, ok := c.top.regs[best]; ok {
-				env.vars[name] = CV{V: val, Signed: isSigned(best.Type()), Typ: best.Type()}
+				cv := CV{V: val, Signed: isSigned(best.Type()), Typ: best.Type()}
+				env.vars["now."+name] = cv // now(x): the value of the variable x at this return
+				if !taken {
+					env.vars[name] = cv
+				}
 				continue
 			}
+		}
+		if taken {
+			continue
 		}
 		// the local has no value on this path: an arbitrary value (clauses guarded by the
 		// path's own condition are unaffected)
